@@ -46,6 +46,10 @@ def check(model: Model, rep: Report, tier: str):
                    "all its fields, in particular the record offsets of detector / observable annotations (= C05.K1/K2)")
     from .c01 import r7
     from .c06 import u5 as _u5
+    from .c05 import _k5
+    with rep.isolated():
+        share_rule(rep, model, _k5, "C08.S9", "a sub-circuit handed to add() arrives as a copy of ITSELF -- its own repetition count and relation included (= C05.K5); replacing a "
+                   "wrapper by what it wraps drops the wrapper's count from the export")
     with rep.isolated():
         share_rule(rep, model, _u5, "C08.S8", "the count the exporter multiplies a block by is the count in force when it exports: nr_of_repetitions (and everything unrolling reads) "
                    "is computed on every read, not memoised (= C06.U5); a cached count survives apply_modifiers resetting the strategy and a changed registry")
@@ -64,7 +68,11 @@ def _ctor_name(v: Term) -> Optional[str]:
     return None
 
 
+_DUPLICATE_KEYS: List[str] = []
+
+
 def stim_table(model: Model) -> Tuple[Dict[str, Term], str]:
+    del _DUPLICATE_KEYS[:]
     M = model.cls("StimFactoryManager")
     expr = M.class_attrs.get("_factory")
     if expr is None:
@@ -81,7 +89,7 @@ def stim_table(model: Model) -> Tuple[Dict[str, Term], str]:
         if k[0] != "cls":
             raise AnalysisError(f"factory_lookup key is not a class: {show(k)}")
         if k[1] in out:
-            raise AnalysisError(f"duplicate key {k[1]} in factory_lookup")
+            _DUPLICATE_KEYS.append(k[1])       # a dict display keeps the LAST entry of a repeated key: the earlier row is silently shadowed
         out[k[1]] = val
     return out, f"{M.module.relpath}:{expr.lineno}"
 
@@ -90,6 +98,9 @@ def s1(model: Model, rep: Report):
     rep.rule("C08.S1", "StimFactoryManager's operation-type -> gate table equals the documented mapping; NameBasedOperationsFactory emits the configured "
                        "name on the operation's qubits; the tick factory emits TICK without targets; annotation factories emit the operation's own instruction")
     table, loc = stim_table(model)
+    rep.check(not _DUPLICATE_KEYS, "C08.S1", "stim table[keys written once]", loc, found=f"repeated keys: {sorted(set(_DUPLICATE_KEYS))}" if _DUPLICATE_KEYS else "every key written once",
+              required="one row per operation type", what=f"the translation table writes the key(s) {sorted(set(_DUPLICATE_KEYS))} twice: the later row silently replaces the earlier one, so that "
+              "operation is exported as the other row's gate (and the type the second row was meant for has no row)", detail="duplicate-key")
     rep.floor("stim gate table entries", len(table), 1)  # completeness is judged entry by entry below
     for cls_name, gate in SPEC_TABLE.items():
         v = table.get(cls_name)
